@@ -501,6 +501,7 @@ struct Env {
     faults: Vec<usize>,
     cmd_rx: UnboundedReceiver<ServerCommand>,
     svc_seen: usize,
+    engine_errors: Vec<String>,
     /// accepted connections the accept thread dropped without dispatching them: (cid, no handle was left)
     dropped: Vec<(usize, bool)>,
 }
@@ -559,6 +560,7 @@ pub struct Snap {
     /// "ready", connection id for "call", 1/0 for "create"
     pub svc_new: Vec<(String, usize, usize, i64)>,
     pub dropped: Vec<(usize, bool)>,
+    pub engine_errors: Vec<String>,
     pub scripts_empty: bool,
 }
 
@@ -646,6 +648,11 @@ impl Env {
             Act::Connect(l) => self.connect(*l),
             Act::WorkerPoll(i) => self.worker_poll(*i),
             Act::Finish(cid) => {
+                // a schedule may name a connection that does not exist (yet): not applicable
+                if *cid >= self.clients.len() {
+                    self.skipped.push(format!("Finish({cid})"));
+                    return;
+                }
                 let key = self.clients[*cid].key.clone();
                 let w = {
                     let mut s = self.sh.lock().unwrap();
@@ -907,7 +914,16 @@ impl Env {
         for i in due {
             self.anchored[i].3 = true;
             let act = self.anchored[i].2.clone();
-            self.apply(&act);
+            // a panic of the ENGINE while applying an environment action must not be mistaken for a panic of the
+            // accept thread: it is recorded and turned into a tool error by the driver
+            if let Err(p) = catch_unwind(AssertUnwindSafe(|| self.apply(&act))) {
+                let msg = p
+                    .downcast_ref::<&str>()
+                    .map(|s| s.to_string())
+                    .or_else(|| p.downcast_ref::<String>().cloned())
+                    .unwrap_or_else(|| "panic".into());
+                self.engine_errors.push(format!("{act:?}: {msg}"));
+            }
         }
     }
 }
@@ -977,6 +993,7 @@ impl Sim {
             faults: vec![],
             cmd_rx,
             svc_seen: 0,
+            engine_errors: vec![],
             dropped: vec![],
         };
         let mut handles = vec![];
@@ -1223,6 +1240,7 @@ impl Sim {
         }
         e.svc_seen += s.svc_new.len();
         s.dropped = e.dropped.clone();
+        s.engine_errors = e.engine_errors.clone();
         s.replaced = e.replaced.clone();
         s.skipped = e.skipped.clone();
         s
